@@ -17,7 +17,7 @@ func init() {
 		ID:          "C07",
 		Explanation: "Decided: (contexts) every copying context of the translator — call arguments, composite-literal elements/keys/values/fields, send values, map stores, method receivers, explicit conversions — converts its operand through the cloning helper, and assignment/definition of array or struct destinations emits $clone or T.copy; the non-cloning helper is only called from the reviewed comparison/lookup/print/return contexts (inventory); (box) conversion of an array or struct operand to an interface goes through a clone; (deep) the run-time copiers recurse into both value kinds (array and struct) and $clone is zero()+copy of the same type. NOT decided: aliasing behaviour of pointers/slices/maps at run time, append reallocation.",
 		Assumptions: []string{"translateImplicitConversionWithCloning is the single cloning conversion helper and $clone/T.copy the only copy primitives"},
-		Rules:       []RuleFunc{ruleC07Contexts, ruleC07Box, ruleC07Deep},
+		Rules:       []RuleFunc{ruleC07Contexts, ruleC07Box, ruleC07Deep, ruleSliceHeaderPreserved},
 	})
 }
 
